@@ -13,6 +13,40 @@ def pyval(n, as_float=False):
     return n / 2
 
 
+class UH:
+    """a span bound that orders and compares like the number it wraps but is not hashable (e.g. a mutable position object):
+    the relations need comparisons only"""
+    __slots__ = ("v",)
+    __hash__ = None
+
+    def __init__(self, v):
+        self.v = v
+
+    def _o(self, other):
+        return other.v if isinstance(other, UH) else other
+
+    def __eq__(self, other):
+        return self.v == self._o(other)
+
+    def __ne__(self, other):
+        return self.v != self._o(other)
+
+    def __lt__(self, other):
+        return self.v < self._o(other)
+
+    def __le__(self, other):
+        return self.v <= self._o(other)
+
+    def __gt__(self, other):
+        return self.v > self._o(other)
+
+    def __ge__(self, other):
+        return self.v >= self._o(other)
+
+    def __repr__(self):
+        return f"UH({self.v!r})"
+
+
 def holds(rel, x, y):
     xs, xe = x
     ys, ye = y
@@ -124,7 +158,10 @@ class Prop(SeqProp):
             if rng.random() < 0.45:
                 a = rng.randrange(nsets)
                 rerel.append((rng.choice(["copy", "inplace"]), a, rng.choice([r for r in RELS if r != sets[a][2]])))
-            yield self.build_case(sets, True, probes, rerel=rerel)
+            c = self.build_case(sets, True, probes, rerel=rerel)
+            if rng.random() < 0.15:
+                c.meta["unhashable"] = True  # span bounds that compare like numbers but cannot be hashed
+            yield c
 
     def run_impl(self, case):
         from windpyutils.structures import span_set as ss
@@ -133,15 +170,19 @@ class Prop(SeqProp):
         env = {}
         out = []
 
+        uh = bool(case.meta.get("unhashable"))
+        raw = lambda x: x.v if isinstance(x, UH) else x
+        num = (lambda n, f=False: UH(pyval(n, f))) if uh else pyval
+
         def show(S):
-            return ",".join(f"{round(s * 2)}:{round(e * 2)}" for s, e in S)
+            return ",".join(f"{round(raw(s) * 2)}:{round(raw(e) * 2)}" for s, e in S)
 
         for st in case.meta["impl"]:
             try:
                 o = st[0]
                 if o in ("mk", "raw"):
                     _, name, rel, spans, form = st
-                    vals = [(pyval(s, (i + form) % 3 == 0), pyval(e, (i + form) % 2 == 0)) for i, (s, e) in enumerate(spans)]
+                    vals = [(num(s, (i + form) % 3 == 0), num(e, (i + form) % 2 == 0)) for i, (s, e) in enumerate(spans)]
                     if o == "raw":
                         S = ss.SpanSet([v[0] for v in vals], [v[1] for v in vals], force_no_dup_check=True,
                                        eq_relation=relcls[rel]())
@@ -149,9 +190,9 @@ class Prop(SeqProp):
                         starts, ends = [v[0] for v in vals], [v[1] for v in vals]
                         S = ss.SpanSet(starts, ends, eq_relation=relcls[rel]())
                         # the caller goes on using its lists: the set built with the duplicate check keeps its own spans
-                        starts.append(10 ** 6); ends.append(10 ** 6 + 1)
+                        starts.append(num(2 * 10 ** 6)); ends.append(num(2 * 10 ** 6 + 2))
                         if starts:
-                            starts[0] = -(10 ** 6); ends[0] = 10 ** 6
+                            starts[0] = num(-2 * 10 ** 6); ends[0] = num(2 * 10 ** 6)
                     elif form == 1:
                         S = ss.SpanSet(iter(vals), eq_relation=relcls[rel]())
                     else:
@@ -176,7 +217,7 @@ class Prop(SeqProp):
                     env[st[1]].eq_relation = relcls[st[2]]()
                     out.append("ok " + show(env[st[1]]))
                 elif o == "has":
-                    r = (pyval(st[2]), pyval(st[3], True)) in env[st[1]]
+                    r = (num(st[2]), num(st[3], True)) in env[st[1]]
                     out.append(f"ret {1 if r else 0}")
                 else:
                     out.append("bad-op")
